@@ -366,6 +366,39 @@ def r04_5(facts, res):
         raise BrokenCheck("R04-5: %d conditional field prints (floor 15)" % st["instances"])
 
 
+IDENTITY_FIELDS = ("id", "parent_id", "context", "order_cache", "order_version", "owner")
+IDENTITY_CALLS = ("ptr_eq", "as_ptr", "addr_eq", "addr", "as_raw", "into_raw")
+
+
+def structural_eq(facts, res, rule):
+    """Equality of information items is structural: two parses of one text build different Rc cells and different ids, so an
+    eq that looks at pointer identity or at an id field makes equal documents unequal (and only a document equal to itself)."""
+    st = res.rule(rule, instances=0)
+    for ty in ITEM_TYPES:
+        eq = facts.fn_opt("xml_info::<%s as std::cmp::PartialEq>::eq" % ty)
+        if eq is None or "body" not in eq or eq.get("derived"):
+            continue
+        st["instances"] += 1
+        bad = []
+        for n in walk(eq["body"]):
+            name = None
+            if n.get("k") == "MethodCall":
+                name = n["m"]
+            elif n.get("k") == "Call" and isinstance(n.get("f"), dict):
+                name = str(n["f"].get("path", "")).split("::")[-1]
+            if name in IDENTITY_CALLS or (name == "eq" and "std::ptr" in str(n.get("f", {}).get("path", ""))):
+                bad.append("calls %s" % name)
+        for fld in sorted(self_fields(eq["body"])):
+            if fld in IDENTITY_FIELDS:
+                bad.append("compares the field `%s`" % fld)
+        res.oblige(1, not bad)
+        if bad:
+            res.add(Finding(rule, ty + "|identity", "%s %s: equality by identity - two parses of the same text are not equal"
+                            % (eq["path"], ", ".join(sorted(set(bad)))), eq["file"], eq["line"], {}))
+    if st["instances"] < 12:
+        raise BrokenCheck("%s: %d hand-written eq impls of information items (floor 12)" % (rule, st["instances"]))
+
+
 def run(facts, tier):
     res = Result("C04")
     res.explanation = (
@@ -397,6 +430,7 @@ def run(facts, tier):
     quote_rule(facts, res)
     r04_4(facts, res)
     r04_5(facts, res)
+    structural_eq(facts, res, "R04-6")
     # ---- R04-3
     st3 = res.rule("R04-3", instances=0)
     for ty in ITEM_TYPES:
